@@ -440,12 +440,12 @@ def _sel(name, incl, excl):
     return any(fnmatch.fnmatchcase(name, i) for i in incl)
 
 
-def selection_spec(world, plan, target, problem):
+def selection_spec(world, plan, target, problem, options=None):
     """My own statement of the documented selection semantics -> (inputs, outputs, residuals) as sets of
     absolute names.  `problem` is used only to learn the auto-IVC output names OpenMDAO invented."""
     kind = target.split(':')[0]
     o = dict(DEFAULTS[kind])
-    o.update(plan['options'].get(target, {}))
+    o.update(plan['options'].get(target, {}) if options is None else options)
     incl, excl = o['includes'], o['excludes']
     own = B.owner_of(world)
     model = problem.model
@@ -673,8 +673,10 @@ class C17(RecCheck):
         for e in mine:
             t = event_target(e)
             d = got['data'][e['name']]
-            ins, outs, res = selection_spec(world, plan, t, rr.p)
-            custom = bool(plan['options'].get(t))
+            ins, outs, res = selection_spec(world, plan, t, rr.p, options=e.get('options'))
+            custom = bool(plan['options'].get(t)) or bool(e.get('options'))
+            if e.get('options') is not None and e['options'] != plan['options'].get(t, {}):
+                probes.inc('cases_recorded_after_recording_options_changed')
             for kind, exp, key in (('inputs', ins, 'input'), ('outputs', outs, 'output'), ('residuals', res, 'residual')):
                 gk = set(d[kind].keys()) if d[kind] is not None else set()
                 if gk != exp:
@@ -737,7 +739,14 @@ class C19(RecCheck):
         return {'runs': 700, 'time': 60.0, 'run_cap': 300.0, 'selftest': 12}
 
     def gen(self, rng, tier):
-        plan = R.gen_rec_plan(rng, tier, small=False)
+        plan = R.gen_rec_plan(rng, tier, small=False, extra_k={'prefix_sibling': 0.4})
+        # a component that overrides System.load_case (documented hook) in a third of the plans, preferably the
+        # one whose name is a string prefix of a sibling's
+        w = plan['world']
+        if rng.random() < 0.35:
+            stubs_ = [c['name'] for c in w['comps'] if c['kind'] != 'ivc']
+            plan['world']['load_case_override'] = w['prefix_pair'][0] if w.get('prefix_pair') and rng.random() < 0.8 \
+                else rng.choice(stubs_)
         # make sure something physical is recorded
         for r in plan['recorders'][:1]:
             for t in ('problem', 'driver'):
@@ -817,7 +826,17 @@ class C19(RecCheck):
                         # the recorded sources; load_case writes sources last, so only outputs are judged
                         probes.inc('inputs_of_faulted_case_not_judged')
                         continue
+                    ov = world.get('load_case_override')
+                    ov_path = None
+                    if ov:
+                        oc = B.comp_by_name(world)[ov]
+                        ov_path = (oc['group'] + '.' if oc['group'] else '') + oc['name'] + '.'
                     for absn in vals.absolute_names():
+                        if kind == 'inputs' and ov_path and absn.startswith(ov_path):
+                            # inputs of the component that overrides load_case are that hook's business (ours leaves
+                            # connected inputs to the next transfer)
+                            probes.inc('inputs_of_overriding_component_not_judged')
+                            continue
                         rec = np.asarray(vals[absn])
                         got = np.asarray(p2.get_val(absn, from_src=False) if kind == 'inputs' else p2.get_val(absn))
                         if got.size != rec.size or not np.array_equal(got.ravel(), rec.ravel(), equal_nan=True):
